@@ -1,14 +1,14 @@
 ---------------------------- MODULE TraceMetrics ----------------------------
 (* Trace validation for Metrics.tla.  Each line: [tid, cfg, obs] where obs is *)
 (* what the real function returned, decoded to exact numbers: obs.cols[j] (or   *)
-(* obs.val) is a 17-tuple, entry k+9 holding <<n, d>> if value^pow / EPS^k is    *)
-(* the rational n/d (else << >>), for k = -8..8.  A value v = <<n,d,k>> of the   *)
-(* specification matches iff entry k+9 equals <<n, d>>.                          *)
+(* obs.val) is the list of all triples <<k, n, d>> such that value^pow / EPS^k is    *)
+(* the rational n/d.  A value v = <<n,d,k>> of the specification matches iff the list   *)
+(* contains <<k, n, d>>.                                                               *)
 EXTENDS Metrics, TLC, Json, IOUtils
 Trace == ndJsonDeserialize(IOEnv.TRACE_FILE)
 VARIABLE l
 TInit == l = 1
-Matches(v, o) == v[3] \in -8..8 /\ o[v[3] + 9] = <<v[1], v[2]>>
+Matches(v, o) == \E i \in DOMAIN o : o[i] = <<v[3], v[1], v[2]>> \/ (v[1] = 0 /\ o[i] = <<0, 0, 1>>)
 Ok(e) ==
     LET r == Result(e.cfg) IN
     /\ e.obs.pow = Power(e.cfg)
